@@ -723,7 +723,7 @@ var c04AllMethods = []string{http.MethodGet, http.MethodPost, http.MethodPut, ht
 // c04SigEngineGate: WithSignature (and optionally WithJwt) routes through the engine.
 func c04SigEngineGate(ks *c04KeySet, tol time.Duration, strict, callback bool, jwtSecret string) (*c04SigGate, error) {
 	obs := &c04Obs{}
-	g := &c04SigGate{layer: "engine", strict: strict, tol: tol, obs: obs, callback: callback}
+	g := &c04SigGate{layer: c04EngineLayerName(), strict: strict, tol: tol, obs: obs, callback: callback}
 	var sopts []Option
 	if callback {
 		sopts = append(sopts, WithUnsignedCallback(c04UnsignedCallback(g)))
@@ -832,7 +832,7 @@ func c04SigCase(m *vk.M, idx int, g *c04SigGate, ks *c04KeySet, r *rand.Rand, cl
 		m.Count("sig.skipped_slow_case", 1) // verdict would depend on wall-clock: drop the case
 		return
 	}
-	if g.layer == "engine" && status == http.StatusServiceUnavailable {
+	if strings.HasPrefix(g.layer, "engine") && status == http.StatusServiceUnavailable {
 		m.Inconclusive("engine answered 503 (breaker/shedder) at %s", c04SigDesc(idx, g, q))
 		return
 	}
@@ -1005,7 +1005,9 @@ func TestVerifC04SignatureEngine(t *testing.T) {
 // TestVerifC04EngineJwtAndSignature: a route with both WithJwt and a strict
 // WithSignature: handler runs iff both verify; bad token -> 401, good token with a
 // bad signature -> 403.
-func TestVerifC04EngineJwtAndSignature(t *testing.T) {
+func TestVerifC04EngineJwtAndSignature(t *testing.T) { c04EngineBoth(t) }
+
+func c04EngineBoth(t *testing.T) {
 	logx.Disable()
 	m := vk.New(t, "C04", "route with WithJwt + strict WithSignature: inner handler runs iff the reference JWT verifier and the reference signature verifier both accept; JWT failure -> 401, else signature failure -> 403")
 	defer m.Done()
@@ -1084,14 +1086,14 @@ func TestVerifC04EngineJwtAndSignature(t *testing.T) {
 					if status == http.StatusForbidden {
 						part = "signature:" + sc
 					}
-					m.Violate("C04:both:engine:rejected-valid:"+part, desc, "both verifiers accept (%s / %s) but handler did not run; status %d", jwhy, swhy, status)
+					m.Violate("C04:both:"+g.layer+":rejected-valid:"+part, desc, "both verifiers accept (%s / %s) but handler did not run; status %d", jwhy, swhy, status)
 				case wantStatus != http.StatusOK && ran != 0:
-					m.Violate("C04:both:engine:admitted-invalid:"+part, desc, "jwt verdict %s, signature verdict %s, yet the handler ran (status %d)", jwhy, swhy, status)
+					m.Violate("C04:both:"+g.layer+":admitted-invalid:"+part, desc, "jwt verdict %s, signature verdict %s, yet the handler ran (status %d)", jwhy, swhy, status)
 				case status != wantStatus:
-					m.Violate("C04:both:engine:wrong-status:"+part, desc, "jwt verdict %s, signature verdict %s: status %d, want %d", jwhy, swhy, status, wantStatus)
+					m.Violate("C04:both:"+g.layer+":wrong-status:"+part, desc, "jwt verdict %s, signature verdict %s: status %d, want %d", jwhy, swhy, status, wantStatus)
 				case wantStatus == http.StatusOK:
 					if bad := c04CheckClaims(req, custom); bad != "" {
-						m.Violate("C04:both:engine:claims-not-visible:"+part, desc, "%s", bad)
+						m.Violate("C04:both:"+g.layer+":claims-not-visible:"+part, desc, "%s", bad)
 					}
 				}
 				if m.ViolCount() > 40 {
